@@ -43,7 +43,9 @@ DropRemote(x) == /\ Step /\ x \in remote /\ remote' = remote \ {x} /\ last' = [k
 
 \* a failing Put either fails before it has read the body ("early": the tee then aborts the local leg too) or after ("late": the
 \* local leg has completed)
-Ops == {"get-result", "get-blob", "head-blob", "put-blob-early", "put-blob-late", "put-result-early", "put-result-late"}
+\* "local-cas": the blob directory of the machine's local cache cannot be read or written during this build (a storage fault
+\* of the local tier while the remote is healthy); only on a machine whose local cache holds no blob yet
+Ops == {"get-result", "get-blob", "head-blob", "put-blob-early", "put-blob-late", "put-result-early", "put-result-late", "local-cas"}
 
 \* one target of a build on a machine; st = [loc, rem, ok, executed, blessed, failed]
 OneTarget(st, t, k, useRemote, f) ==
@@ -53,8 +55,10 @@ OneTarget(st, t, k, useRemote, f) ==
       haveResRemote == useRemote /\ kk \in st.rem /\ "get-result" \notin f
       resFound == haveResLocal \/ haveResRemote
       loc1 == IF ~haveResLocal /\ haveResRemote THEN st.loc \cup {kk} ELSE st.loc
-      blobLocal == "b" \in loc1
-      blobRemote == useRemote /\ "b" \in st.rem /\ "get-blob" \notin f
+      lcb == "local-cas" \in f
+      blobLocal == "b" \in loc1 /\ ~lcb
+      \* read-through stores the remote blob in the local tier first: with a broken local blob directory the read fails
+      blobRemote == useRemote /\ "b" \in st.rem /\ "get-blob" \notin f /\ ~lcb
       blobFound == blobLocal \/ blobRemote
       loc2 == IF ~blobLocal /\ blobRemote THEN loc1 \cup {"b"} ELSE loc1
       hit == resFound /\ blobFound
@@ -62,10 +66,11 @@ OneTarget(st, t, k, useRemote, f) ==
      ELSE
        LET locE == IF resFound THEN loc1 ELSE st.loc
            headOK == "head-blob" \notin f
-           inAllTiers == "b" \in locE /\ (~useRemote \/ (headOK /\ "b" \in st.rem))
+           inAllTiers == ~lcb /\ "b" \in locE /\ (~useRemote \/ (headOK /\ "b" \in st.rem))
            skipBlob == IF FullCheck THEN inAllTiers ELSE ("b" \in locE \/ (useRemote /\ headOK /\ "b" \in st.rem))
-           putBlobEarly == ~skipBlob /\ useRemote /\ "put-blob-early" \in f
-           putBlobFails == ~skipBlob /\ useRemote /\ (f \cap {"put-blob-early", "put-blob-late"} # {})
+           \* the local leg of the tee fails at once: the copy is aborted, the remote Put sees the error and stores nothing
+           putBlobEarly == ~skipBlob /\ useRemote /\ (lcb \/ "put-blob-early" \in f)
+           putBlobFails == ~skipBlob /\ useRemote /\ (f \cap {"put-blob-early", "put-blob-late", "local-cas"} # {})
            putResEarly == useRemote /\ "put-result-early" \in f
            putResFails == useRemote /\ (f \cap {"put-result-early", "put-result-late"} # {})
            locB == IF skipBlob \/ putBlobEarly THEN locE ELSE locE \cup {"b"}
@@ -79,6 +84,7 @@ OneTarget(st, t, k, useRemote, f) ==
 
 Build(m, useRemote, f) ==
   /\ Step /\ f \subseteq Ops /\ faults + Cardinality(f) <= MaxFaults /\ (~useRemote => f = {})
+  /\ ("local-cas" \in f => "b" \notin local[m])
   /\ faults' = faults + Cardinality(f)
   /\ LET s0 == [loc |-> local[m], rem |-> remote, ok |-> TRUE, executed |-> {}, blessed |-> blessed, failed |-> FALSE]
          s1 == OneTarget(s0, "g", key, useRemote, f)
